@@ -122,6 +122,7 @@ Definition seeded_node (g1 : graph) (n : gnode) (p : list (nat * dir)) : Prop :=
     option_map (n_data D) (nth_error g1 seed) = Some sd0 /\
     datas D g1 (verts nat lp ++ verts nat rp) = Some ds /\
     n_data D n = fold_left reduce ds sd0 /\
+    NoDup (map fst p) /\
     forall x, In x (map fst p) -> (seed <= x)%nat.
 
 Lemma map_fst_combine_ {A B} (l : list A) (l' : list B) : length l = length l' -> map fst (combine l l') = l.
@@ -175,7 +176,7 @@ Proof.
     destruct (nth_error r i) as [[n0 p0]|] eqn:Er.
     2:{ rewrite nth_error_map, Er in Hpi. discriminate. }
     rewrite nth_error_map, Er in Hpi. cbn in Hpi. injection Hpi as <-.
-    destruct (HF (n0, p0) (nth_error_In _ _ Er)) as (lp & seed & rp & Hp0 & Hb & _ & _ & _ & Hmin).
+    destruct (HF (n0, p0) (nth_error_In _ _ Er)) as (lp & seed & rp & Hp0 & Hb & _ & HNd & _ & Hmin).
     cbn [fst snd] in *.
     assert (Hn0 : nth_error (map fst r) i = Some n0) by (rewrite nth_error_map, Er; reflexivity).
     destruct (Hsp i n0 Hn0) as (e & He & _ & _). rewrite Hn in He. injection He as ->.
@@ -215,8 +216,175 @@ Theorem seed_is_first_input (g : graph) censor out paths :
 Proof.
   intros V H. destruct (seed_is_first_loose g censor out paths V H) as (g1 & Hg1 & HF).
   eapply Forall2_impl_; [|exact HF].
-  intros n p (lp & seed & rp & sd0 & ds & Hp & H1 & H2 & H3 & H4).
+  intros n p (lp & seed & rp & sd0 & ds & Hp & H1 & H2 & H3 & H4 & H5).
   exists lp, seed, rp, sd0, ds. split; [exact Hp|]. split; [eapply restrict_data; eauto|].
   split; [eapply restrict_datas; eauto|]. auto.
 Qed.
 End SeedMinG.
+
+(* ================================================================ the harness payload: what chk_payload_order decides *)
+(* [rpay] = (colour, id list), rpay_reduce keeps the accumulator's colour and appends the other's ids (NOT commutative).
+   [order_ok g n p] is the test of [chk_payload_order_node] (Check/RecompOrder.v) on the path [p]: with s the position of
+   the smallest node id of p, ids(n) = ids(p_s) ++ ids(p_{s-1}) ++ .. ++ ids(p_0) ++ ids(p_{s+1}) ++ .. and the colour of
+   n is that of p_s.  The checker runs it on the path found by [node_path]; here it is proved of the model's own path. *)
+From DBG Require Import Check.RecompOrder.
+
+Section Order.
+Variable K : nat.
+Variable stranded : bool.
+Local Notation graph := (graph rpay).
+
+Definition order_ok (g : graph) (n : rnode) (p : list (nat * dir)) : bool :=
+  match p with
+  | x0 :: r =>
+      let s := min_pos r 1 (fst x0, 0%nat) in
+      match nth_error p s with
+      | Some xs =>
+          list_eqb N.eqb (snd (n_data rpay n))
+                   (ids_at g xs ++ concat (map (ids_at g) (rev (firstn s p))) ++ concat (map (ids_at g) (skipn (S s) p))) &&
+          match colour_at g xs with Some c => c =? fst (n_data rpay n) | None => false end
+      | None => false
+      end
+  | [] => false
+  end.
+
+Lemma chk_payload_order_node_eq (g : graph) (n : rnode) :
+  chk_payload_order_node K stranded g n =
+  match node_path rpay K stranded g (n_seq rpay n) with Some p => order_ok g n p | None => false end.
+Proof.
+  unfold chk_payload_order_node, order_ok.
+  destruct (node_path rpay K stranded g (n_seq rpay n)) as [[|x0 r]|]; reflexivity.
+Qed.
+
+(* ---- min_pos *)
+Lemma min_pos_best r : forall i bv bi, (forall x, In x (map fst r) -> (bv <= x)%nat) -> min_pos r i (bv, bi) = bi.
+Proof.
+  induction r as [|x r IH]; intros i bv bi H; cbn [min_pos fst snd]; [reflexivity|].
+  assert (E : Nat.ltb (fst x) bv = false). { apply Nat.ltb_ge. apply H. now left. }
+  rewrite E. apply IH. intros y Hy. apply H. now right.
+Qed.
+
+Lemma min_pos_found r : forall i bv bi j m d, NoDup (map fst r) ->
+  nth_error r j = Some (m, d) -> (m < bv)%nat -> (forall x, In x (map fst r) -> (m <= x)%nat) ->
+  min_pos r i (bv, bi) = (i + j)%nat.
+Proof.
+  induction r as [|x r IH]; intros i bv bi j m d Hnd Hj Hlt Hmin; [destruct j; discriminate|].
+  cbn [map] in Hnd. apply NoDup_cons_iff in Hnd. destruct Hnd as [Hni Hnd]. cbn [min_pos fst snd].
+  destruct j as [|j]; cbn [nth_error] in Hj.
+  - injection Hj as ->. cbn [fst]. assert (E : Nat.ltb m bv = true) by now apply Nat.ltb_lt. rewrite E.
+    rewrite min_pos_best; [lia|]. intros y Hy. apply Hmin. now right.
+  - assert (Hin : In m (map fst r)). { pose proof (nth_error_In _ _ Hj) as Hj'. now apply (in_map fst) in Hj'. }
+    assert (Hx : (m < fst x)%nat).
+    { assert (m <= fst x)%nat by (apply Hmin; now left). assert (fst x <> m) by (intro E; apply Hni; now rewrite E). lia. }
+    replace (i + S j)%nat with (S i + j)%nat by lia.
+    destruct (Nat.ltb (fst x) bv).
+    + apply (IH (S i) (fst x) i j m d Hnd Hj Hx). intros y Hy. apply Hmin. now right.
+    + apply (IH (S i) bv bi j m d Hnd Hj Hlt). intros y Hy. apply Hmin. now right.
+Qed.
+
+Lemma min_pos_spec (x0 : nat * dir) r s m d : NoDup (map fst (x0 :: r)) ->
+  nth_error (x0 :: r) s = Some (m, d) -> (forall x, In x (map fst (x0 :: r)) -> (m <= x)%nat) ->
+  min_pos r 1 (fst x0, 0%nat) = s.
+Proof.
+  intros Hnd Hs Hmin. cbn [map] in Hnd. pose proof Hnd as Hnd0. apply NoDup_cons_iff in Hnd. destruct Hnd as [Hni Hnd].
+  destruct s as [|j]; cbn [nth_error] in Hs.
+  - injection Hs as ->. cbn [fst]. apply min_pos_best. intros y Hy. apply Hmin. now right.
+  - assert (Hin : In m (map fst r)). { apply nth_error_In in Hs. now apply (in_map fst) in Hs. }
+    assert (Hx : (m < fst x0)%nat).
+    { assert (m <= fst x0)%nat by (apply Hmin; now left). assert (fst x0 <> m) by (intro E; apply Hni; now rewrite E). lia. }
+    rewrite (min_pos_found r 1 (fst x0) 0%nat j m d Hnd Hs Hx); [lia|]. intros y Hy. apply Hmin. now right.
+Qed.
+
+(* ---- the fold of rpay_reduce *)
+Lemma fold_rpay_reduce (ds : list rpay) : forall sd0,
+  fold_left rpay_reduce ds sd0 = (fst sd0, snd sd0 ++ concat (map snd ds)).
+Proof.
+  induction ds as [|d ds IH]; intro sd0; cbn [fold_left map concat].
+  - rewrite app_nil_r. now destruct sd0.
+  - rewrite IH. unfold rpay_reduce. cbn [fst snd]. now rewrite <- app_assoc.
+Qed.
+
+Lemma datas_ids (g : graph) (f : nat -> nat * dir) : (forall i, fst (f i) = i) -> forall ids ds,
+  datas rpay g ids = Some ds -> concat (map snd ds) = concat (map (ids_at g) (map f ids)).
+Proof.
+  intros Hf. induction ids as [|i ids IH]; intros ds H; cbn [datas] in H.
+  - injection H as <-. reflexivity.
+  - destruct (nth_error g i) as [n|] eqn:E; [|discriminate].
+    destruct (datas rpay g ids) as [t|]; [|discriminate]. injection H as <-.
+    assert (Ei : ids_at g (f i) = snd (n_data rpay n)) by (unfold ids_at; rewrite Hf; change (@nth_error rnode g i) with (@nth_error (gnode rpay) g i); rewrite E; reflexivity).
+    cbn [map concat]. rewrite (IH t eq_refl), Ei. reflexivity.
+Qed.
+
+Lemma list_eqb_N_refl (l : list N) : list_eqb N.eqb l l = true.
+Proof. induction l as [|a l IH]; cbn; auto. now rewrite N.eqb_refl. Qed.
+
+Theorem seeded_order_ok (g : graph) (n : rnode) p :
+  seeded_node rpay rpay_reduce g n p -> order_ok g n p = true.
+Proof.
+  intros (lp & seed & rp & sd0 & ds & Hp & Hsd & Hds & Hn & Hnd & Hmin).
+  set (A := rev (map flipc (cp lp))).
+  assert (HpA : p = A ++ (seed, DLeft) :: cp rp) by exact Hp.
+  assert (HlA : length A = length lp).
+  { unfold A, cp. now rewrite rev_length, !map_length. }
+  assert (Hnth : nth_error p (length lp) = Some (seed, DLeft)).
+  { rewrite HpA, <- HlA, nth_error_app2, Nat.sub_diag by lia. reflexivity. }
+  destruct p as [|x0 r] eqn:Ep.
+  { destruct A; discriminate. }
+  unfold order_ok.
+  rewrite (min_pos_spec x0 r (length lp) seed DLeft Hnd Hnth Hmin), Hnth.
+  assert (Hf : firstn (length lp) (x0 :: r) = A).
+  { rewrite HpA, <- HlA. rewrite firstn_app, Nat.sub_diag, firstn_all. cbn [firstn]. apply app_nil_r. }
+  assert (Hs : skipn (S (length lp)) (x0 :: r) = cp rp).
+  { rewrite HpA, <- HlA. replace (S (length A)) with (length (A ++ [(seed, DLeft)])) by (rewrite app_length; cbn; lia).
+    change (A ++ (seed, DLeft) :: cp rp) with (A ++ [(seed, DLeft)] ++ cp rp). rewrite app_assoc.
+    rewrite skipn_app, skipn_all, Nat.sub_diag. reflexivity. }
+  rewrite Hf, Hs. unfold A. rewrite rev_involutive.
+  rewrite datas_app in Hds.
+  destruct (datas rpay g (verts nat lp)) as [dl|] eqn:Edl; [|discriminate].
+  destruct (datas rpay g (verts nat rp)) as [dr|] eqn:Edr; [|discriminate]. injection Hds as <-.
+  rewrite Hn, fold_rpay_reduce. cbn [n_data fst snd].
+  destruct (nth_error g seed) as [sn|] eqn:Esn; [|discriminate]. cbn [option_map] in Hsd. injection Hsd as <-.
+  assert (Ei : ids_at g (seed, DLeft) = snd (n_data rpay sn)).
+  { unfold ids_at. cbn [fst]. change (@nth_error rnode g seed) with (@nth_error (gnode rpay) g seed). now rewrite Esn. }
+  assert (Ec : colour_at g (seed, DLeft) = Some (fst (n_data rpay sn))).
+  { unfold colour_at. cbn [fst]. change (@nth_error rnode g seed) with (@nth_error (gnode rpay) g seed). now rewrite Esn. }
+  rewrite Ei, Ec, N.eqb_refl, andb_true_r.
+  rewrite map_app, concat_app.
+  rewrite (datas_ids g (fun i => (i, DRight)) (fun i => eq_refl) _ _ Edl) at 1.
+  assert (E1 : map (fun i => (i, DRight)) (verts nat lp) = map (fun x => (fst x, DRight)) lp).
+  { unfold verts. now rewrite map_map. }
+  pose proof (datas_ids g (fun i => (i, DLeft)) (fun i => eq_refl) _ _ Edr) as E2.
+  assert (Hids : forall (q q' : list (nat * dir)), map fst q = map fst q' -> map (ids_at g) q = map (ids_at g) q').
+  { induction q as [|a q IH]; intros [|b q'] H; cbn in H; try discriminate; auto. injection H as H1 H2.
+    cbn [map]. rewrite (IH q' H2). unfold ids_at. now rewrite H1. }
+  rewrite (Hids (map flipc (cp lp)) (map (fun i => (i, DRight)) (verts nat lp))).
+  2:{ unfold cp, verts. rewrite !map_map. reflexivity. }
+  rewrite (Hids (cp rp) (map (fun i => (i, DLeft)) (verts nat rp))).
+  2:{ unfold cp, verts. rewrite !map_map. reflexivity. }
+  rewrite <- E2. apply list_eqb_N_refl.
+Qed.
+
+(* the model's output passes the test of chk_payload_order on the model's own paths *)
+Theorem payload_order_model (join : rpay -> rpay -> bool) (join_sym : forall a b, join a b = join b a)
+  (g : graph) censor out paths :
+  rvalid_loose rpay K stranded g ->
+  compress_graph_paths rpay rpay_reduce join K stranded g censor = Some (out, paths) ->
+  Forall2 (fun n p => sequence_of_path rpay K g p = Some (n_seq rpay n) /\ order_ok g n p = true) out paths.
+Proof.
+  intros V H.
+  pose proof (seed_is_first_input rpay rpay_reduce join K stranded join_sym g censor out paths V H) as HF.
+  destruct (recompress_nodes_loose rpay rpay_reduce join K stranded join_sym g censor out paths V H) as (g1 & Hg1 & HN).
+  assert (Hseq : g_seqs rpay g1 = g_seqs rpay g).
+  { unfold RecompCheck.restrict in Hg1. destruct (fix_exts_spec rpay K stranded g (Some (survivors rpay g censor)))
+      as (g' & Hg' & _ & Hs & _). congruence. }
+  clear H Hg1. revert HN. induction HF as [|n p out paths Hnp HF IH]; intro HN; inversion HN; subst; constructor; auto.
+  split; [|now apply seeded_order_ok].
+  match goal with H : node_of_path _ _ _ _ _ _ _ _ |- _ => destruct H as (lp & seed & rp & n0 & Hp0 & (Hsq & _) & _ & _ & Hs0 & _) end.
+  rewrite Hs0, <- Hp0 in *. rewrite <- Hsq. clear - Hseq.
+  unfold sequence_of_path. generalize true. induction p as [|[i d] p IHp]; intro b; cbn [sequence_of_path_from]; auto.
+  rewrite IHp. assert (E : option_map (n_seq rpay) (nth_error g i) = option_map (n_seq rpay) (nth_error g1 i)).
+  { unfold g_seqs in Hseq. rewrite <- !nth_error_map. now rewrite Hseq. }
+  destruct (nth_error g i) as [a|], (nth_error g1 i) as [a1|]; cbn in E; try discriminate; auto.
+  injection E as E. unfold oriented. now rewrite E.
+Qed.
+End Order.
